@@ -255,6 +255,42 @@ def h_sequence(eng, ops, quiet=False):
             _same(eng, a, b, f"{tag}:{la}")
 
 
+def h_float_history(eng, pairs):
+    """float registry: what a conversion answers is bit-for-bit (and type-for-type) what a fresh
+    registry answers, whatever was converted before -- the opposite direction of the same pair,
+    other pairs of the same dimension, context activations in between"""
+
+    def answers(reg, u, v):
+        out = []
+        for val in (2, 2.0, 3.7):
+            r = reg.Quantity(val, u).to(v)
+            out.append((type(r.magnitude).__name__, repr(r.magnitude)))
+        out.append(repr(reg.convert(1.5, u, v)))
+        f = reg.Quantity(5, u)
+        f.ito(v)
+        out.append(repr(f.magnitude))
+        return out
+
+    for u, v in pairs:
+        fresh = answers(regs.float_default(), u, v)
+        for hist in ("opposite-first", "opposite-in-context", "via-root", "opposite-registry-level"):
+            reg = regs.float_default()
+            if hist == "opposite-first":
+                reg.Quantity(1.0, v).to(u)
+            elif hist == "opposite-in-context":
+                with reg.context("sp"):
+                    reg.Quantity(1.0, v).to(u)
+                reg.Quantity(1.0, v).to(u)
+            elif hist == "via-root":
+                reg.Quantity(1.0, v).to_root_units()
+                reg.Quantity(1.0, u).to_base_units()
+                reg.get_root_units(v)
+            else:
+                reg.convert(1, v, u)
+                reg.Unit(v).from_(reg.Quantity(1, u))
+            eng.prove(answers(reg, u, v) == fresh, f"float-history:{hist}:{u}->{v}")
+
+
 MIN_DISCHARGED = {"H13": 20000}
 
 
@@ -270,6 +306,11 @@ def cases(tier, seed):
     qs += [["enable:c3", "disable:1", "enable:c3", "disable:1"], ["enable:c4", "q:base(w)", "disable:all", "enable:c4", "disable:1"], ["system:sysB", "q:base(w)", "system:sysA"], ["enable:c3", "define", "disable:1", "enable:c3"]]
     for s in qs:
         out.append(Case("H13", "quiet:" + ";".join(s), M, "h_sequence", {"ops": s, "quiet": True}, opts={"hash_mode": "mixed", "max_paths": 300}, validate=0, weight=float(len(s))))
+    from .. import covers
+
+    fp = covers.same_dim_pairs(seed, 400 if big else 60) + [("minute", "second"), ("week", "day"), ("pound", "kilogram"), ("second", "minute"), ("inch", "yard"), ("hour", "millisecond")]
+    for i in range(0, len(fp), 12):
+        out.append(Case("H13.float", f"history:{i:04d}", M, "h_float_history", {"pairs": fp[i : i + 12]}, kind="conc"))
     for i, s in enumerate(seqs):
         out.append(Case("H13", ";".join(s), M, "h_sequence", {"ops": s}, opts={"hash_mode": "mixed", "max_paths": 300}, validate=1 if i % 8 == 0 else 0, weight=float(len(s))))
     return out
